@@ -221,22 +221,27 @@ namespace OP2Utility::XFile
 		return fs::path(pathStr).filename().string();
 	}
 
+	// Drops leading "." components, so "./dir/name" and "dir/name" compare equal
+	static fs::path RemoveLeadingCurrentDirectory(const fs::path& path)
+	{
+		fs::path result;
+		bool leading = true;
+		for (const auto& component : path) {
+			if (leading && component == ".") {
+				continue;
+			}
+			leading = false;
+			result /= component;
+		}
+		return result;
+	}
+
 	bool PathsAreEqual(std::string pathStr1, std::string pathStr2)
 	{
 		StringUtility::ConvertToUpperInPlace(pathStr1);
 		StringUtility::ConvertToUpperInPlace(pathStr2);
 
-		fs::path path1(pathStr1);
-		if (path1.has_relative_path() && path1.relative_path() == path1.filename()) {
-			path1 = ("./" + pathStr1);
-		}
-
-		fs::path path2(pathStr2);
-		if (path2.has_relative_path() && path2.relative_path() == path2.filename()) {
-			path2 = ("./" + pathStr2);
-		}
-
-		return path1 == path2;
+		return RemoveLeadingCurrentDirectory(fs::path(pathStr1)) == RemoveLeadingCurrentDirectory(fs::path(pathStr2));
 	}
 
 	std::string GetDirectory(const std::string& pathStr)
